@@ -755,9 +755,15 @@ class MementoFunctionHashRule(HashRule):
             # An explicit version is an arbitrary string. The hashes of all rules are concatenated
             # to compute the version of the dependent function, so use a fixed-width digest of the
             # string: otherwise the versions "1", "23" of two dependencies are indistinguishable
-            # from the versions "12", "3".
+            # from the versions "12", "3". The digest also covers the name of the function: the
+            # rule hashes are concatenated in key order without their keys, so the versions
+            # "1", "2" of two functions must not read like the versions "1", "2" of two others.
+            # noinspection PyUnresolvedReferences
             target_hash = hashlib.sha256(
-                self.memento_fn.explicit_version.encode("utf-8")
+                "{}#{}".format(
+                    self.memento_fn.qualified_name_without_version,
+                    self.memento_fn.explicit_version,
+                ).encode("utf-8")
             ).hexdigest()[0:16]
         else:
             target_hash = self.memento_fn.code_hash
